@@ -107,18 +107,22 @@ class C11(Prop):
             name = rng.choice(USER if user else BUILTIN)
             yield k, {'name': name, 'user': user, 'outer': j % len(OUTER),
                       'body': make_body(rng, name, lead_ws_group=(j % 11 == 0)),
-                      'second_end': j % 7 == 0}
+                      'second_end': j % 7 == 0,
+                      # what directly follows the closing \end{name}
+                      'rest': rng.choice(['', '', '', '[1] tail', '[', '{g}', '[a][b]', ' [x]',
+                                          '\n{y}', '*', 'x', '[{]}', '%c\n', '$m$'])}
 
     def nontrivial(self, p):
         return any(c in p['body'] for c in '{}[]$\\%')
 
     def sample(self, p):
-        return {'doc': short(doc(p['outer'], p['name'], p['body']), 200), 'user': p['user']}
+        return {'doc': short(doc(p['outer'], p['name'], p['body'], p.get('rest', '')), 200), 'user': p['user']}
 
     def check(self, p, ctx):
         from TexSoup import TexSoup
         name, body = p['name'], p['body']
-        rest = ' mid \\end{%s}' % name if p['second_end'] and p['outer'] < 2 else ''
+        rest = p.get('rest', '') + (' mid \\end{%s}' % name if p['second_end'] and p['outer'] < 2 else '')
+        ctx.seen('after_end', p.get('rest', ''))
         src = doc(p['outer'], name, body, rest)
         kw = {'skip_envs': (name,)} if p['user'] else {}
         soup = TexSoup(src, **kw)
